@@ -141,6 +141,9 @@ def run(ctx) -> None:
     ctx.check("R1", ok_fp, "cli._update: filepaths = set(cfg.file_patterns.keys())",
               "cli._update: the checked/staged file set is not the configured file set",
               f"filepaths is defined as `{unparse(fp_def) if fp_def is not None else None}`", loc=upd.loc())
+    # the configured paths are compared with the paths git prints: they must be canonical relative paths
+    from checks.c03 import canonical_keys_rule
+    canonical_keys_rule(ctx, "R1")
     shapes.check_passthrough(ctx, "R1", "cli._update", "vcs.assert_not_dirty",
                              {"vcs_api": "vcs_api", "filepaths": "filepaths", "allow_dirty": "allow_dirty"})
     shapes.check_passthrough(ctx, "R1", "cli._try_update", "cli._update", {"allow_dirty": "allow_dirty", "cfg": "cfg"})
